@@ -159,7 +159,7 @@ def check(fx, rep, tier):
             rep.check(sep, 'R14.1', key, '%s:%s' % (f, x.get('line')), 'list elements of %s are separated by `,`' % it,
                       'the renderer of %s writes the elements of `%s` without a `,` between them%s: the text does not follow the grammar and the parser rejects it' % (
                           ty, it, (' in the branch `%s`' % conds[-1]) if conds else ''))
-    rep.floor('R14.1', 8, 'element-list loops in Display impls')
+    rep.floor('R14.1', 4, 'element-list loops in Display impls')
     # ---- R14.2 token tables
     tdisp = [x for x in disp if x[2] == 'Type']
     printer = {}
